@@ -679,6 +679,58 @@ func freeHistory(t *testing.T, run *obs.Run, c *obs.Case, i int) {
 	c.End(fmt.Sprintf("free/workers=%d/peers=%d/pays=%d/recvs=%d/stale=%d/order=%08x", workers, len(w.peers), npay, nrecv, stale, h.Sum32()), true)
 }
 
+// freshHistory: the peers are known to the persistent address book but the running
+// service has no in-memory record of them yet (the node was restarted since they were
+// met and no traffic was exchanged before). The first updates of each such peer are
+// released together.
+func freshHistory(t *testing.T, run *obs.Run, c *obs.Case, i int) {
+	rng := c.Rand()
+	w := newWorld(t, run, c, rng, 6+rng.Intn(10))
+	defer w.close()
+	w.node = trafficx.NewNode(w.self, w.ps, w.chain, trafficx.Options{})
+	if err := w.node.Svc.Init(); err != nil {
+		t.Fatal(err)
+	}
+	w.setupW = len(w.ps.Writes())
+	workers := 2 + rng.Intn(7)
+	for p := range w.peers {
+		var wg sync.WaitGroup
+		start := make(chan struct{})
+		for g := 1; g <= workers; g++ {
+			kind, a := kConsume, amount(rng)
+			if rng.Intn(2) == 0 {
+				kind = kServe
+			}
+			wg.Add(1)
+			go func(g int) {
+				defer wg.Done()
+				<-start
+				if kind == kConsume {
+					w.consume(g, p, a)
+				} else {
+					w.serve(g, p, a)
+				}
+			}(g)
+		}
+		close(start)
+		done := make(chan struct{})
+		go func() { wg.Wait(); close(done) }()
+		select {
+		case <-done:
+		case <-time.After(120 * time.Second):
+			t.Fatal("first updates of a fresh peer did not finish within 120s")
+		}
+		run.Stat("fresh_peers_with_simultaneous_first_updates", 1)
+	}
+	w.mu.Lock()
+	nrec := len(w.recs)
+	w.mu.Unlock()
+	run.Stat("acknowledged_ops", int64(nrec))
+	run.Stat("fresh_histories", 1)
+	w.check(rng, 1<<30, 3)
+	c.End(fmt.Sprintf("fresh/peers=%d/workers=%d", len(w.peers), workers), true)
+}
+
 func TestMain(m *testing.M) { racemain.Main(m) }
 
 func runSet(t *testing.T, name string, quick, thorough int, f func(*testing.T, *obs.Run, *obs.Case, int)) {
@@ -693,6 +745,8 @@ func runSet1(t *testing.T, name string, quick, thorough int, f func(*testing.T, 
 			"restart (new service + Init) on the store contents after EVERY write from the held-back update on, after 2 sampled writes of the prefix, and at quiescence; distinct = kind x overtakers x achieved x prefix/suffix length x stale overwrites seen",
 			"the store wrapper only delays a Put and logs writes; a store in which an earlier-issued Put completes later is an ordinary concurrent store",
 			"restart point k = base contents + first k writes; an operation counts as acknowledged at point k if its call returned before write k+1 began (logical clock)")
+	} else if strings.HasPrefix(name, "fresh") {
+		run.Rule("fresh peers: 6-15 peers known to the persistent address book but without an in-memory record (service restarted since the handshake, no traffic before); for each peer 2-8 goroutines are released together, each making one traffic update of that peer; restart at 3 sampled crash points and at quiescence; distinct = peers x workers")
 	} else {
 		run.Rule("free-running: 2-6 goroutines x 3-8 traffic updates over 1-3 peers, one payer goroutine and one cheque-receiving goroutine, seeded yields/microsleeps before store writes; restart at 5 sampled crash points and at quiescence; " +
 			"distinct = workload sizes x stale overwrites seen x order in which calls returned")
@@ -719,3 +773,5 @@ func TestFreeA(t *testing.T)   { runSet(t, "freeA", 40, 300, freeHistory) }
 func TestFreeB(t *testing.T)   { runSet(t, "freeB", 40, 300, freeHistory) }
 func TestFreeC(t *testing.T)   { runSet(t, "freeC", 0, 300, freeHistory) }
 func TestFreeD(t *testing.T)   { runSet(t, "freeD", 0, 300, freeHistory) }
+func TestFreshA(t *testing.T)  { runSet(t, "freshA", 40, 300, freshHistory) }
+func TestFreshB(t *testing.T)  { runSet(t, "freshB", 40, 300, freshHistory) }
